@@ -280,10 +280,11 @@ func c19LabelRows(rs []c19Rec) int {
 }
 
 type c19Model struct {
-	ups   []c19Server
-	recs  [][]c19Rec // per upload, statement rule
-	recsF [][]c19Rec // per upload, flush rule (finding recognition only)
-	hasCR bool
+	ups          []c19Server
+	recs         [][]c19Rec // per upload, statement rule
+	recsF        [][]c19Rec // per upload, flush rule (finding recognition only)
+	hasCR        bool
+	hasEmptyName bool
 }
 
 type c19ResolvedTerm struct {
@@ -306,10 +307,43 @@ func c19Resolve(ts []c19Term, ups []c19Server) []c19ResolvedTerm {
 	return out
 }
 
+// Alternative readings of `key>""`, used ONLY to recognise known root causes
+// after the strict reading has failed.
+const (
+	c19Strict      = iota // key>"" means value > "" bytewise (the statement)
+	c19GtMergedAny        // key>"" is dropped for keys that also have a key<v term and no key:v term
+	c19GtAny              // key>"" is satisfied by any present value
+)
+
+// c19GtAnyKeys returns the keys whose `key>""` terms the given reading drops.
+func c19GtAnyKeys(ts []c19ResolvedTerm, mode int) map[string]bool {
+	if mode == c19Strict {
+		return nil
+	}
+	gt, lt, eq := map[string]bool{}, map[string]bool{}, map[string]bool{}
+	for _, t := range ts {
+		switch {
+		case t.Op == ">" && t.Val == "":
+			gt[t.Key] = true
+		case t.Op == "<":
+			lt[t.Key] = true
+		case t.Op == ":":
+			eq[t.Key] = true
+		}
+	}
+	out := map[string]bool{}
+	for k := range gt {
+		if mode == c19GtAny || (lt[k] && !eq[k]) {
+			out[k] = true
+		}
+	}
+	return out
+}
+
 // c19Match evaluates the conjunction of terms on one record with Go's
-// bytewise string comparison. gtEmptyAny is the alternative reading used only
-// to recognise a known root cause (key>"" matching an empty value).
-func c19Match(r *c19Rec, ts []c19ResolvedTerm, gtEmptyAny bool) bool {
+// bytewise string comparison. gtAny (nil for the statement's reading) lists
+// keys whose `key>""` terms are satisfied by any present value.
+func c19Match(r *c19Rec, ts []c19ResolvedTerm, gtAny map[string]bool) bool {
 	for _, t := range ts {
 		v, ok := r.Labels[t.Key]
 		if !ok {
@@ -328,7 +362,7 @@ func c19Match(r *c19Rec, ts []c19ResolvedTerm, gtEmptyAny bool) bool {
 				return false
 			}
 		case ">":
-			if gtEmptyAny && t.Val == "" {
+			if t.Val == "" && gtAny[t.Key] {
 				continue
 			}
 			if !(v > t.Val) {
@@ -369,12 +403,13 @@ func c19StripCRMap(m map[string]string) map[string]string {
 
 // expectResults returns the canonical multiset (sorted) of results the query
 // must return. upTo limits the model to the first upTo uploads.
-func (m *c19Model) expectResults(ts []c19ResolvedTerm, upTo int, gtEmptyAny, stripCR bool) []string {
+func (m *c19Model) expectResults(ts []c19ResolvedTerm, upTo int, gtMode int, stripCR bool) []string {
 	var out []string
+	gtAny := c19GtAnyKeys(ts, gtMode)
 	for u := 0; u < upTo && u < len(m.recs); u++ {
 		for i := range m.recs[u] {
 			r := &m.recs[u][i]
-			if !c19Match(r, ts, gtEmptyAny) {
+			if !c19Match(r, ts, gtAny) {
 				continue
 			}
 			for _, l := range r.Lines {
@@ -397,8 +432,9 @@ type c19Info struct {
 
 // expectListing: uploads with at least one matching stored record, newest
 // first, at most limit (0 = all).
-func (m *c19Model) expectListing(ts []c19ResolvedTerm, upTo, limit int, gtEmptyAny, flushRule bool) []c19Info {
+func (m *c19Model) expectListing(ts []c19ResolvedTerm, upTo, limit int, gtMode int, flushRule bool) []c19Info {
 	var out []c19Info
+	gtAny := c19GtAnyKeys(ts, gtMode)
 	recs := m.recs
 	if flushRule {
 		recs = m.recsF
@@ -406,7 +442,7 @@ func (m *c19Model) expectListing(ts []c19ResolvedTerm, upTo, limit int, gtEmptyA
 	for u := upTo - 1; u >= 0; u-- {
 		n := 0
 		for i := range recs[u] {
-			if c19Match(&recs[u][i], ts, gtEmptyAny) {
+			if c19Match(&recs[u][i], ts, gtAny) {
 				n++
 			}
 		}
@@ -700,26 +736,52 @@ func (m *c19Model) judgeResults(level, text string, ts []c19ResolvedTerm, o c19O
 	if o.err != nil {
 		return kit.Failf("query-error", "%s Query(%q): %v", level, text, o.err)
 	}
-	want := m.expectResults(ts, upTo, false, false)
+	want := m.expectResults(ts, upTo, c19Strict, false)
 	d := c19DiffSorted(o.res, want)
 	if d == "" {
 		return nil
 	}
-	hasGtEmpty := false
-	for _, t := range ts {
-		if t.Op == ">" && t.Val == "" {
-			hasGtEmpty = true
-		}
+	if len(c19GtAnyKeys(ts, c19GtMergedAny)) > 0 && c19DiffSorted(o.res, m.expectResults(ts, upTo, c19GtMergedAny, false)) == "" {
+		nar.set(kit.Failf("gt-empty-merged-with-lt", "%s Query(%q): key>\"\" merged with key<v on the same key loses its lower bound; the only discrepancy is records whose label is the empty string: %s", level, text, d))
+		return nil
 	}
-	if hasGtEmpty && c19DiffSorted(o.res, m.expectResults(ts, upTo, true, false)) == "" {
+	if len(c19GtAnyKeys(ts, c19GtAny)) > 0 && c19DiffSorted(o.res, m.expectResults(ts, upTo, c19GtAny, false)) == "" {
 		nar.set(kit.Failf("gt-empty-matches-empty-value", "%s Query(%q) also returns records whose label is the empty string although \"\" > \"\" is false: %s", level, text, d))
 		return nil
 	}
-	if m.hasCR && c19DiffSorted(o.res, m.expectResults(ts, upTo, false, true)) == "" {
+	if m.hasCR && c19DiffSorted(o.res, m.expectResults(ts, upTo, c19Strict, true)) == "" {
 		nar.set(kit.Failf("cr-terminated-label-or-line", "%s Query(%q): mismatch confined to a trailing CR of label values / lines: %s", level, text, d))
 		return nil
 	}
+	if m.hasEmptyName && c19DiffSorted(o.res, m.expectResultsEmptyName(ts, upTo)) == "" {
+		nar.set(kit.Failf("empty-name-loses-name-label", "%s Query(%q): a result whose benchmark name is empty comes back without its name-derived label name=\"\": %s", level, text, d))
+		return nil
+	}
 	return kit.Failf("query-result-mismatch", "%s Query(%q) terms=%q: %s", level, text, ts, d)
+}
+
+// expectResultsEmptyName is the alternative expectation used only to recognise
+// one root cause: a result with an empty benchmark name, first in its stored
+// record, is returned with no name-derived labels at all.
+func (m *c19Model) expectResultsEmptyName(ts []c19ResolvedTerm, upTo int) []string {
+	var out []string
+	for u := 0; u < upTo && u < len(m.recs); u++ {
+		for i := range m.recs[u] {
+			r := &m.recs[u][i]
+			if !c19Match(r, ts, nil) {
+				continue
+			}
+			for _, l := range r.Lines {
+				if len(r.Name) == 1 && r.Name["name"] == "" && strings.TrimLeft(strings.TrimPrefix(l, "Benchmark"), " \t") != strings.TrimPrefix(l, "Benchmark") {
+					out = append(out, c19Canon(l, r.Labels, nil))
+				} else {
+					out = append(out, c19Canon(l, r.Labels, r.Name))
+				}
+			}
+		}
+	}
+	sort.Strings(out)
+	return out
 }
 
 func c19IsEOF(err error) bool {
@@ -727,7 +789,7 @@ func c19IsEOF(err error) bool {
 }
 
 func (m *c19Model) judgeListing(level, text string, ts []c19ResolvedTerm, limit int, o c19ListObs, upTo int, nar *c19Narrow) *kit.Fail {
-	want := m.expectListing(ts, upTo, limit, false, false)
+	want := m.expectListing(ts, upTo, limit, c19Strict, false)
 	if o.err != nil {
 		if c19IsEOF(o.err) && len(want) == 0 && len(o.infos) == 0 {
 			nar.set(kit.Failf("listing-contradiction-eof", "%s ListUploads(%q, limit %d): error %q instead of an empty listing for a query that can match nothing", level, text, limit, o.err))
@@ -738,18 +800,18 @@ func (m *c19Model) judgeListing(level, text string, ts []c19ResolvedTerm, limit 
 	if c19InfosEqual(o.infos, want) {
 		return nil
 	}
-	for _, t := range ts {
-		if t.Op == ">" && t.Val == "" {
-			if c19InfosEqual(o.infos, m.expectListing(ts, upTo, limit, true, false)) {
-				nar.set(kit.Failf("gt-empty-matches-empty-value", "%s ListUploads(%q, limit %d) = %v, want %v (key>\"\" matched an empty value)", level, text, limit, o.infos, want))
-				return nil
-			}
-		}
+	if len(c19GtAnyKeys(ts, c19GtMergedAny)) > 0 && c19InfosEqual(o.infos, m.expectListing(ts, upTo, limit, c19GtMergedAny, false)) {
+		nar.set(kit.Failf("gt-empty-merged-with-lt", "%s ListUploads(%q, limit %d) = %v, want %v (key>\"\" merged with key<v lost its lower bound; only records with an empty label value are spurious)", level, text, limit, o.infos, want))
+		return nil
+	}
+	if len(c19GtAnyKeys(ts, c19GtAny)) > 0 && c19InfosEqual(o.infos, m.expectListing(ts, upTo, limit, c19GtAny, false)) {
+		nar.set(kit.Failf("gt-empty-matches-empty-value", "%s ListUploads(%q, limit %d) = %v, want %v (key>\"\" matched an empty value)", level, text, limit, o.infos, want))
+		return nil
 	}
 	// Recorded finding: a flush of the queued label rows in the middle of an
 	// upload ends the current run of identical-label results. Recognised only
 	// when the listing is exactly what that rule predicts.
-	if wf := m.expectListing(ts, upTo, limit, false, true); c19InfosEqual(o.infos, wf) {
+	if wf := m.expectListing(ts, upTo, limit, c19Strict, true); c19InfosEqual(o.infos, wf) {
 		nar.set(kit.Failf("coalesce-split-at-flush", "%s ListUploads(%q, limit %d) = %v, statement (one record per run of identical labels) gives %v; the difference is exactly the runs split where >= %d label rows were queued", level, text, limit, o.infos, want, c19FlushLabels))
 		return nil
 	}
@@ -846,6 +908,9 @@ func (m *c19Model) finish(s *c19Sys, ups []c19Upload) *kit.Fail {
 		for _, r := range rs {
 			if strings.HasSuffix(r.Line, "\r") {
 				m.hasCR = true
+			}
+			if len(r.Name) == 1 && r.Name["name"] == "" {
+				m.hasEmptyName = true
 			}
 			for _, v := range r.Labels {
 				if strings.HasSuffix(v, "\r") {
@@ -948,8 +1013,8 @@ var (
 	c19FileNms  = []string{"", "1.txt", "path/to/2.txt", `c:\dir\3.txt`, "bench.out"}
 	c19Junks    = []string{"", "PASS", "ok  \tgolang.org/x/perf\t0.1s", "goos linux", "BenchmarkNoSpace", "Benchmark",
 		" BenchmarkIndented 1 1 ns/op", "--- FAIL: x", "Key: upper", "k :v", "#comment: x", "\t", "k"}
-	c19Seps   = []string{" ", " ", " ", "  ", "\t", " \t "}
-	c19Specl  = []string{"a b", `a"b`, `a\b`, "x:y", "<", ">z", "a ", "é", "世界", "\xff\xfe", "%", "_", "'", "a|b", "00", "10", "9", "Z", "a\tb", `"`, `\`, "a  b ", "-", "k:v w<x"}
+	c19Seps    = []string{" ", " ", " ", "  ", "\t", " \t "}
+	c19Specl   = []string{"a b", `a"b`, `a\b`, "x:y", "<", ">z", "a ", "é", "世界", "\xff\xfe", "%", "_", "'", "a|b", "00", "10", "9", "Z", "a\tb", `"`, `\`, "a  b ", "-", "k:v w<x"}
 	c19ValAlph = "ab01 :<>\"\\zZ"
 )
 
@@ -966,9 +1031,9 @@ func c19GenVal(r *kit.Rand) string {
 }
 
 type c19Gen struct {
-	r     *kit.Rand
-	keys  []string
-	vals  []string
+	r             *kit.Rand
+	keys          []string
+	vals          []string
 	emptyNameVals bool
 }
 
@@ -1298,7 +1363,7 @@ func c19EdgeCases(thorough bool, yield func(c19Case)) {
 		c.Uploads = []c19Upload{{Files: []c19File{{Name: "e.txt", Lines: []c19Line{
 			c19SetL("k", "a"), c19BenchL("X", " 1 1 ns/op"), c19BenchL("X", " 1 2 ns/op"),
 			c19SetL("k", "b"), c19BenchL("X", " 1 3 ns/op", c19Sub{Key: "y", Val: ""}),
-			c19BenchL("", " 1 4 ns/op"), c19BenchL("X", " 1 5 ns/op", c19Sub{Val: ""}, c19Sub{Val: "q"}),
+			c19BenchL("X", " 1 5 ns/op", c19Sub{Val: ""}, c19Sub{Val: "q"}),
 		}}}}}
 		for _, ts := range [][]c19Term{
 			{c19T("k", ":", "a"), c19T("k", ":", "b")},
@@ -1312,6 +1377,17 @@ func c19EdgeCases(thorough bool, yield func(c19Case)) {
 			for lim := 0; lim < 2; lim++ {
 				c.Queries = append(c.Queries, c19Query{Terms: ts, Render: uint64(len(c.Queries)), Limit: lim})
 			}
+		}
+		yield(c)
+
+		// (5) a benchmark line whose name is empty
+		c = c19Case{ID: id, Direct: direct}
+		id++
+		c.Uploads = []c19Upload{{Files: []c19File{{Name: "n.txt", Lines: []c19Line{
+			c19SetL("k", "a"), c19BenchL("X", " 1 1 ns/op"), c19BenchL("", " 1 4 ns/op"), c19BenchL("", " 1 5 ns/op"), c19BenchL("Y", " 1 6 ns/op"),
+		}}}}}
+		for _, ts := range [][]c19Term{{c19T("name", "<", "A")}, {c19T("name", ">", "")}, {c19T("k", ":", "a")}, {}} {
+			c.Queries = append(c.Queries, c19Query{Terms: ts, Render: uint64(len(c.Queries)), Limit: 1})
 		}
 		yield(c)
 
@@ -1366,8 +1442,8 @@ func c19FlushCase(r *kit.Rand, i int) c19Case {
 func c19StoreClasses() []kit.Runner {
 	return []kit.Runner{
 		kit.Class[c19Case]{
-			Name: "c19-store", Quick: 150, Thorough: 6000,
-			Gen: c19GenCase, Check: c19Check, NonTrivial: c19NonTrivial, MinNonTrivial: 60,
+			Name: "c19-store", Quick: 300, Thorough: 6000,
+			Gen: c19GenCase, Check: c19Check, NonTrivial: c19NonTrivial, MinNonTrivial: 120,
 			Rule: "1-12 uploads of 1-3 files built from label histories (set / change / delete over 2-4 keys and a pool of hostile values: blanks, quotes, backslashes, :<>, UTF-8, invalid UTF-8, neighbours in bytewise order), benchmark names with sub-keys, positional parts and -N, repeated names (coalescing), junk lines; 40 (thorough 100) queries of 0-6 terms over present/absent keys incl. upload/upload-part/by/name labels, repeated keys (redundant, contradictory), values needing quoting, spelled in random shell-style quoting; each query observed at db.DB.Query/ListUploads (limit 0 and 1..n+1) and, for HTTP-origin cases, through storage.Client. Non-trivial: every upload accepted, some label history, some query with two terms on one key.",
 		},
 		kit.Class[c19Case]{
